@@ -33,7 +33,7 @@ class Result:
 
 
 def _java(args, cwd, env=None, timeout=None, heap="8g"):
-    cmd = ["java", "-XX:+UseParallelGC", f"-Xmx{heap}", "-cp", JAR_CP] + args
+    cmd = ["java", "-XX:+UseParallelGC", f"-Xmx{heap}", "-Xss256m", "-cp", JAR_CP] + args    # (deep RECURSIVE operators on long traces)
     e = dict(os.environ)
     e.pop("JAVA_TOOL_OPTIONS", None)
     if env:
